@@ -304,6 +304,7 @@ void hb_release(std::vector<uint32_t> &vc);
 void hb_acquire(const std::vector<uint32_t> &vc);
 extern bool g_race_build;
 extern const char *g_race_property;   // property a detected race is reported under (the campaign's own)
+void race_range(const void *p, size_t n, bool write);   // a seam call touches the library's buffer
 void race_reset();                    // a new run starts: forget every shadow cell
 void race_once_enter();               // pthread_once: callers that did not run the routine acquire ...
 void race_once_exit();                // ... what the one that ran it released
